@@ -891,7 +891,13 @@ func (c *BufferConverter) From(obj interface{}) (Object, error) {
 type DynamicConverter struct{}
 
 func (c *DynamicConverter) To(obj Object) (interface{}, error) {
-	return obj.Interface(), nil
+	value := obj.Interface()
+	if value == nil && obj.Type() != NIL {
+		// The object has no Go value (a function, a module): nil would
+		// stand for it, and nothing would say so
+		return nil, errz.TypeErrorf("type error: a value of type %s cannot be passed to Go", obj.Type())
+	}
+	return value, nil
 }
 
 func (c *DynamicConverter) From(obj interface{}) (Object, error) {
@@ -1100,6 +1106,10 @@ func (c *PointerConverter) To(obj Object) (interface{}, error) {
 	v, err := c.valueConverter.To(obj)
 	if err != nil {
 		return nil, err
+	}
+	if v == nil {
+		// Nothing to point at (and reflect.New(nil) panics)
+		return nil, errz.TypeErrorf("type error: a value of type %s cannot be passed to Go as a pointer", obj.Type())
 	}
 	vp := reflect.New(reflect.TypeOf(v))
 	vp.Elem().Set(reflect.ValueOf(v))
